@@ -136,6 +136,9 @@ def is_equivalent(lhs: Node | None, rhs: Node | None) -> bool:
                 rhs.fullname or rhs.name
             )
 
+        case StrExpr() as lhs, StrExpr() as rhs:
+            return lhs.value == rhs.value
+
         case MemberExpr() as lhs, MemberExpr() as rhs:
             return (
                 lhs.name == rhs.name
